@@ -302,6 +302,16 @@ impl World {
                     self.bulk_weak_drop(wi, a[1].clamp(0, 40000) as u32);
                 }
             }
+            O::BulkRegister => {
+                if let Some(h) = self.resolve_root(a[0], live_node) {
+                    self.bulk_register(h, a[1].clamp(0, 40000) as u32);
+                }
+            }
+            O::BulkClean => {
+                if let Some(h) = self.resolve_root(a[0], live_node) {
+                    self.bulk_clean(h, a[1].clamp(0, 40000) as u32);
+                }
+            }
             O::Compare => {
                 if let (Some(i), Some(j)) = (self.resolve_root(a[0], any), self.resolve_root(a[1], any)) {
                     self.compare(i, j);
@@ -498,6 +508,15 @@ impl World {
                 self.drop_root(i)
             });
         }
+        wrap(&|| {
+            // cleanables kept in bulk: dropping them neither runs nor cancels anything
+            let all = std::mem::take(&mut self.t.borrow_mut().bulk_cleanables);
+            for (map, v) in all {
+                self.m.borrow_mut().objs[map as usize].bulk_cleanables = 0;
+                self.lib(LibCall::Other, move || drop(v));
+            }
+            self.sync();
+        });
         let ncl = self.m.borrow().cl_action.len();
         for c in 0..ncl {
             if self.m.borrow().cl_action[c].is_some() {
